@@ -264,6 +264,16 @@ def construct (Infer : InferFn) (c : Call) : Except Err (List (String × Option 
     | none => .error .inference
     | some res => .ok (c.outKeys.map (fun k => (k, (lookupTy k res).map stripUnk)))
 
+/-- An operator whose inference spox *supplements* (Compress, Loop): the override first runs the
+    standard routine (`self.infer_output_types_onnx()` / `super().infer_output_types()`), whose
+    error propagates, and then its own rules `own` on top of the standard result. -/
+def constructSupplemented (Infer : InferFn)
+    (own : Call → List (String × Option Ty) → Except Err (List (String × Option Ty))) (c : Call) :
+    Except Err (List (String × Option Ty)) :=
+  match construct Infer c with
+  | .error e => .error e
+  | .ok std => own c std
+
 /-! ## The same node, built directly ("hand-built"), and the operations inference is invariant under -/
 
 def renameNode (σ : String → String) (n : NodeView) : NodeView :=
